@@ -223,7 +223,8 @@ def _check_listing(case, ctx):
                                               "%s listing of %r (abstract_entries=%s): abstract %r of %r is not shown after its entry (found %r)" % (
                                                   form, dsel, case["entries"], lines, e["target"][1], nxt)))
                             break
-                        if not shown and nxt == lines:
+                        ambiguous = any(world.b(x["text"]) in lines for x in case["extra"] if x["k"] == "info")
+                        if not shown and nxt == lines and not ambiguous:
                             fails.append(Fail("abstract-shown:%s:%s" % (fam, case["entries"]),
                                               "%s listing of %r (abstract_entries=%s): abstract of %r is rendered although the setting leaves it out" % (
                                                   form, dsel, case["entries"], e["target"][1])))
